@@ -17,16 +17,16 @@ open Ferrous
 /-- (1) Serialising any well-formed RESP value and parsing the bytes, followed by any other
     bytes, gives back the same value and leaves exactly what followed
     (i.e. consumes exactly `(ser f).length` bytes). -/
-theorem roundtrip (f : Frame) (hw : wf f = true) (rest : Bytes) :
+theorem roundtrip (f : Frame) (hw : wf f = true) (hd : f.depth ≤ maxNesting + 1) (rest : Bytes) :
     parseBytes (ser f ++ rest) = .ok f rest :=
-  parseBytes_ser f hw rest
+  parseBytes_ser f hw hd rest
 
 /-- (1') the same for a whole reply stream: the incremental parser fed `ser f` in one piece
     from a clean state yields exactly `f` when `f` does not begin like an inline PING or
     whitespace — stated for the frames the server actually emits (type byte first). -/
-theorem roundtrip_consumes_exactly (f : Frame) (hw : wf f = true) :
+theorem roundtrip_consumes_exactly (f : Frame) (hw : wf f = true) (hd : f.depth ≤ maxNesting + 1) :
     parseBytes (ser f) = .ok f [] := by
-  have := parseBytes_ser f hw []
+  have := parseBytes_ser f hw hd []
   simpa using this
 
 /-- (1'') Error and simple-string replies frame correctly whatever bytes their payload carries
@@ -49,10 +49,16 @@ theorem prefix_stable (d e : Bytes) :
     have := parseBytes_append d e (by simp [h])
     simpa [h, Res.ext] using this
 
-/-- The recursion budget of the model (`length + 1`) is never the reason for an answer:
-    any larger budget gives the same result, including "need more data". -/
-theorem fuel_irrelevant (d : Bytes) (m : Nat) (h : d.length < m) : parseFrame m d = parseBytes d :=
-  (parseFrame_fuel_irrelevant (d.length + 1) m d (by omega) h).symm
+/-- Nesting limit: every frame the parser returns has at most `MAX_NESTING` containers around a
+    scalar — the recursion of the parser (one level per container) is bounded whatever the input,
+    and frames nested deeper are refused with an error, never a stack overflow. -/
+theorem nesting_bounded (d : Bytes) (f : Frame) (r : Bytes) (h : parseBytes d = .ok f r) :
+    f.depth ≤ maxNesting + 1 :=
+  parseFrame_depth _ d f r h
+
+/-- … and the refusal is an error reported at once, stable under more input. -/
+theorem too_deep_is_error (d : Bytes) : parseFrame 0 d = .err := by
+  cases d <;> rfl
 
 /-- (3) Feeding a byte stream to the incremental parser in any chunking yields the same
     sequence of frames and errors as feeding it whole (fixed parser: `pingFix = true`). -/
@@ -96,13 +102,14 @@ theorem consumed_bounded (d : Bytes) (f : Frame) (r : Bytes) (h : parseBytes d =
 
 /-- (5) With container sizing capped by the bytes received, no `Vec::with_capacity` request
     made while parsing `d` exceeds `2·|d|` frame slots, whatever lengths `d` declares. -/
-theorem reserve_bounded (d : Bytes) : reserveOf true (d.length + 1) d ≤ 2 * d.length :=
+theorem reserve_bounded (d : Bytes) : reserveOf true (maxNesting + 1) d ≤ 2 * d.length :=
   reserveOf_capped_le _ d
 
 /-- Tie to the code: the regenerated switches say that /repo's parser is the fixed one, so
     (3) and (5) speak about the current tree.  Fails to check if either repair is absent. -/
 theorem tree_has_ping_fix : Gen.pingFix = true := by decide
 theorem tree_sanitizes_lines : Gen.lineSanitized = true := by decide
+theorem tree_nesting_limit : Gen.maxNesting = maxNesting := by decide
 theorem tree_caps_reserve : Gen.reserveCapped = true := by decide
 
 /-! ### Witnesses: the two statements are false for the parser as pinned -/
